@@ -65,6 +65,18 @@ def run_trace(job: tuple) -> dict:
     slide = prs.slides.add_slide(prs.slide_layouts[6])
     if host == "group":
         slide.shapes.add_group_shape()
+    if host == "sibling":
+        # a neighbour of the same type, customised: every adjustment moved away from its default, before the shape under test exists
+        try:
+            if kind == "shape":
+                sib = slide.shapes.add_shape(MSO_AUTO_SHAPE_TYPE[first["item"]], Emu(0), Emu(0), Emu(914400), Emu(914400))
+                for i in range(len(sib.adjustments)):
+                    sib.adjustments[i] = 0.31 + i / 100.0
+            else:
+                ct0 = XL_CHART_TYPE[first["item"]]
+                slide.shapes.add_chart(ct0, Emu(0), Emu(0), Emu(914400), Emu(914400), chart_data_for(ct0))
+        except Exception:
+            pass            # the addition itself is judged on the shape under test
     steps = []
     last = dict(EMPTY)
     for a in actions:
